@@ -16,6 +16,26 @@ type atomDef struct {
 	Key           string
 }
 
+// tags are structural properties of an atom used by the classification of minimised misses (tools/props/c01_common.py):
+//
+//	returns-from-closure-call  the atom's output is a value RETURNED by a call of a closure or bound method that captured it
+//	closure-state-consumer     the atom stores its input into / reads it back from the captured state of a closure that is
+//	                           created in ANOTHER function (closure stored in a global func variable, setter/getter pair)
+func (a atomDef) tags() []string {
+	var t []string
+	switch a.Kind + ":" + a.Variant {
+	case "closure:by-value-after", "closure:ref-taint-after", "closure:returned", "closure:passed", "closure:nested",
+		"closure:setter-getter", "closure:iife", "closure:in-struct", "closure:loop-capture",
+		"methodval:value", "methodval:iface-value", "methodval:passed":
+		t = append(t, "returns-from-closure-call")
+	}
+	switch a.Kind + ":" + a.Variant {
+	case "global:func", "closure:setter-getter":
+		t = append(t, "closure-state-consumer")
+	}
+	return t
+}
+
 func (a atomDef) key() string {
 	if a.Key != "" {
 		return a.Key
